@@ -25,6 +25,9 @@ import (
 // ProbeConfig is one generator configuration of the exec probe.
 type ProbeConfig struct {
 	Name string
+	// RenameRoots: the probe's Mutation root type is renamed ("Commands") and declared
+	// through an explicit schema{...} block.
+	RenameRoots bool
 	// Exec overrides the exec: section; Extra is appended at top level of gqlgen.yml.
 	Exec  string
 	Extra string
@@ -36,6 +39,7 @@ var (
 	CfgFuncSyntax   = ProbeConfig{Name: "function-syntax", Extra: "use_function_syntax_for_execution_context: true\n"}
 	CfgWorker1      = ProbeConfig{Name: "worker-limit-1", Exec: "exec:\n  filename: graph/generated.go\n  package: graph\n  worker_limit: 1\n"}
 	CfgWorker2      = ProbeConfig{Name: "worker-limit-2", Exec: "exec:\n  filename: graph/generated.go\n  package: graph\n  worker_limit: 2\n"}
+	CfgRenamedRoots = ProbeConfig{Name: "renamed-roots", RenameRoots: true}
 	CfgWorker8      = ProbeConfig{Name: "worker-limit-8", Exec: "exec:\n  filename: graph/generated.go\n  package: graph\n  worker_limit: 8\n"}
 )
 
@@ -79,6 +83,12 @@ func BuildAll(probeName string, cfgs []ProbeConfig) []Built {
 			defer func() { <-sem }()
 			files := probe.ReadProbe(probeName)
 			files["gqlgen.yml"] = pc.yaml()
+			if pc.RenameRoots {
+				sdl := files["schema.graphql"]
+				sdl = strings.Replace(sdl, "type Mutation {", "type Commands {", 1)
+				sdl = strings.Replace(sdl, "type Query {", "type Root {", 1)
+				files["schema.graphql"] = "schema { query: Root mutation: Commands subscription: Subscription }\n" + sdl
+			}
 			files["harness/main.go"] = string(tmpl)
 			res, err := probe.Generate(probe.Spec{Name: probeName + "-" + pc.Name, Files: files, Stub: "graph/stub.go"})
 			b := Built{Cfg: pc, Dir: res.Dir}
